@@ -659,14 +659,16 @@ func createListeners(addrs []string, opts ...Option) ([]*listener, *Options, err
 	listeners := make([]*listener, len(addrs))
 	for i, a := range addrs {
 		proto, addr, err := parseProtoAddr(a)
+		if err == nil {
+			listeners[i], err = initListener(proto, addr, options)
+		}
 		if err != nil {
+			// Release the listeners that have been created for the preceding addresses.
+			for _, ln := range listeners[:i] {
+				ln.close()
+			}
 			return nil, nil, err
 		}
-		ln, err := initListener(proto, addr, options)
-		if err != nil {
-			return nil, nil, err
-		}
-		listeners[i] = ln
 	}
 
 	return listeners, options, nil
